@@ -500,7 +500,9 @@ impl RevocationRegistry {
         trace!("RevocationRegistry::_initial_state: >>> cred_rev_pub_key: {:?}, rev_key_priv: {:?}, max_cred_num: {:?}, issuance_by_default: {:?}",
                cred_rev_pub_key, secret!(rev_key_priv), max_cred_num, issuance_by_default);
 
-        let accum = if issuance_by_default {
+        // a registry of capacity 0 has no valid index: `1..=0` is empty (accum_range would
+        // read it as the reversed range `0..=1`)
+        let accum = if issuance_by_default && max_cred_num > 0 {
             Tail::accum_range(
                 &cred_rev_pub_key.g_dash,
                 &rev_key_priv.gamma,
